@@ -276,7 +276,6 @@ Notation tagged := (tagged A).
 Definition goff (ids : probe -> list Z) (ps : list probe) (k : nat) : Z :=
   zsum (map (fun p => n_ids (ids p)) (firstn k ps)).
 Lemma coff_goff ps k : coff_spec ps k = goff (@p_clu A V F) ps k. Proof. reflexivity. Qed.
-Lemma toff_goff ps k : toff_spec ps k = goff (@p_tmpl A V F) ps k. Proof. reflexivity. Qed.
 
 Lemma goff_0 ids ps : goff ids ps 0 = 0. Proof. reflexivity. Qed.
 Lemma goff_S ids p r j : goff ids (p :: r) (S j) = n_ids (ids p) + goff ids r j. Proof. reflexivity. Qed.
@@ -298,6 +297,39 @@ Proof.
 Qed.
 Lemma goff_all ids ps k : (length ps <= k)%nat -> goff ids ps k = goff ids ps (length ps).
 Proof. intros H. unfold goff. rewrite !firstn_all2; [reflexivity|lia|lia]. Qed.
+
+(* template offsets: cumulative template COUNTS (p_ntmpl), not derived from the spike templates *)
+Lemma toff_0 (ps : list probe) : toff_spec ps 0 = 0. Proof. reflexivity. Qed.
+Lemma toff_S (p : probe) r j : toff_spec (p :: r) (S j) = p_ntmpl p + toff_spec r j. Proof. reflexivity. Qed.
+Lemma toff_step ps k (p : probe) : nth_error ps k = Some p -> toff_spec ps (S k) = toff_spec ps k + p_ntmpl p.
+Proof.
+  revert k; induction ps as [|q r IH]; intros [|k] H; cbn [nth_error] in H; try discriminate.
+  - injection H as ->. rewrite toff_S, !toff_0. lia.
+  - rewrite !toff_S, (IH k H). lia.
+Qed.
+Lemma toff_mono (ps : list probe) : (forall p, In p ps -> 0 <= p_ntmpl p) ->
+  forall j k, (j <= k)%nat -> toff_spec ps j <= toff_spec ps k.
+Proof.
+  induction ps as [|q r IH]; intros Hn j k H.
+  - unfold toff_spec. rewrite !firstn_nil. lia.
+  - assert (Hr : forall p, In p r -> 0 <= p_ntmpl p) by (intros p Hp; apply Hn; now right).
+    pose proof (Hn q (or_introl eq_refl)) as Hq.
+    destruct j as [|j]; destruct k as [|k]; try lia; rewrite ?toff_S, ?toff_0.
+    + pose proof (IH Hr 0%nat k (Nat.le_0_l _)) as G. rewrite toff_0 in G. lia.
+    + specialize (IH Hr j k). lia.
+Qed.
+(* a well-formed probe has at least one template: its spikes name templates in 0 .. p_ntmpl - 1 *)
+Lemma wf_ntmpl (p : probe) : wf_probe p -> zmaxl (p_tmpl p) + 1 <= p_ntmpl p.
+Proof.
+  intros (H1 & H2 & H3 & Hn & _ & Pt & Nt).
+  assert (Ne : p_tmpl p <> []).
+  { intros E. rewrite E in H2. cbn [length] in H2. destruct (p_times p); [contradiction|discriminate]. }
+  specialize (Nt _ (zmaxl_in _ Ne Pt)). lia.
+Qed.
+Lemma wf_ntmpl_nonneg (ps : list probe) : Forall wf_probe ps -> forall p, In p ps -> 0 <= p_ntmpl p.
+Proof.
+  intros H p Hp. rewrite Forall_forall in H. pose proof (wf_ntmpl p (H p Hp)). pose proof (zmaxl_nonneg (p_tmpl p)). lia.
+Qed.
 
 (* cluster_probes, declaratively *)
 Fixpoint cp_spec (i : Z) (ps : list probe) : list Z :=
@@ -326,15 +358,15 @@ Lemma sc_loop_spec (ps : list probe) : Forall wf_probe ps -> forall i coff toff,
 Proof.
   induction 1 as [|p r Hp Hr IH]; intros i coff toff.
   - exists []. cbn. repeat split; reflexivity.
-  - destruct (wf_probe_ne p Hp) as [Nc Nt]. pose proof Hp as (L1 & L2 & L3 & _ & Pc & Pt).
-    cbn [sc_loop]. rewrite (zmax_opt_zmaxl _ Nc Pc), (zmax_opt_zmaxl _ Nt Pt).
-    fold (n_ids (p_clu p)). fold (n_ids (p_tmpl p)).
+  - destruct (wf_probe_ne p Hp) as [Nc Nt]. pose proof Hp as (L1 & L2 & L3 & _ & Pc & Pt & _).
+    cbn [sc_loop]. rewrite (zmax_opt_zmaxl _ Nc Pc).
+    fold (n_ids (p_clu p)).
     replace (n_ids (p_clu p) <? 0) with false by (pose proof (n_ids_pos (p_clu p)); lia).
-    destruct (IH (i + 1) (coff + n_ids (p_clu p)) (toff + n_ids (p_tmpl p))) as (sh & -> & E1 & E2 & E3 & E4 & E5).
+    destruct (IH (i + 1) (coff + n_ids (p_clu p)) (toff + p_ntmpl p)) as (sh & -> & E1 & E2 & E3 & E4 & E5).
     eexists. split; [reflexivity|]. cbn [map sh_coff sh_toff sh_sc sh_st sh_cp concat length].
-    rewrite !map_seq_S, E1, E2, E5. rewrite coff_goff, toff_goff, !goff_0.
+    rewrite !map_seq_S, E1, E2, E5. rewrite coff_goff, toff_0, !goff_0.
     split; [f_equal; [lia|]; apply map_ext; intros j; rewrite !coff_goff, goff_S; lia|].
-    split; [f_equal; [lia|]; apply map_ext; intros j; rewrite !toff_goff, goff_S; lia|].
+    split; [f_equal; [lia|]; apply map_ext; intros j; rewrite toff_S; lia|].
     split; [|split; [|reflexivity]].
     + intros k. cbn [tagged_from]. rewrite map_app, (E3 (S k)). f_equal.
       * destruct (tag_spikes_proj k 0 _ _ _ _ L1 L2 L3) as (_ & _ & _ & G). unfold tag_probe.
@@ -345,9 +377,9 @@ Proof.
     + intros k. cbn [tagged_from]. rewrite map_app, (E4 (S k)). f_equal.
       * destruct (tag_spikes_proj k 0 _ _ _ _ L1 L2 L3) as (_ & _ & G & _). unfold tag_probe.
         rewrite <- G at 1. rewrite map_map. apply map_ext_in. intros s Hs.
-        destruct (tag_spikes_tags _ _ _ _ _ _ _ Hs) as [-> _]. rewrite Nat.sub_diag, toff_goff, goff_0. lia.
+        destruct (tag_spikes_tags _ _ _ _ _ _ _ Hs) as [-> _]. rewrite Nat.sub_diag, toff_0. lia.
       * apply map_ext_in. intros s Hs. pose proof (tagged_from_probe _ _ _ Hs).
-        replace (t_probe s - k)%nat with (S (t_probe s - S k)) by lia. rewrite !toff_goff, goff_S. lia.
+        replace (t_probe s - k)%nat with (S (t_probe s - S k)) by lia. rewrite toff_S. lia.
 Qed.
 End Offsets.
 
@@ -617,19 +649,22 @@ Theorem thm_disjoint (ps : list probe) : Forall wf_probe ps ->
    (forall c, In c (p_clu pj) -> coff_spec ps j <= c + coff_spec ps j <= coff_spec ps j + zmaxl (p_clu pj)) /\
    (forall c, In c (p_clu pk) -> coff_spec ps k <= c + coff_spec ps k)) /\
   (toff_spec ps j + zmaxl (p_tmpl pj) < toff_spec ps k /\
+   toff_spec ps j + p_ntmpl pj <= toff_spec ps k /\
    (forall c, In c (p_tmpl pj) -> toff_spec ps j <= c + toff_spec ps j <= toff_spec ps j + zmaxl (p_tmpl pj)) /\
    (forall c, In c (p_tmpl pk) -> toff_spec ps k <= c + toff_spec ps k)).
 Proof.
-  intros Hwf j k pj pk Hlt Hj Hk. rewrite Forall_forall in Hwf.
-  pose proof (Hwf _ (nth_error_In _ _ Hj)) as (_ & _ & _ & _ & Pcj & Ptj).
-  pose proof (Hwf _ (nth_error_In _ _ Hk)) as (_ & _ & _ & _ & Pck & Ptk).
+  intros Hwf j k pj pk Hlt Hj Hk. pose proof (wf_ntmpl_nonneg ps Hwf) as Hnn. rewrite Forall_forall in Hwf.
+  pose proof (Hwf _ (nth_error_In _ _ Hj)) as (_ & _ & _ & _ & Pcj & Ptj & _).
+  pose proof (Hwf _ (nth_error_In _ _ Hk)) as (_ & _ & _ & _ & Pck & Ptk & _).
+  pose proof (wf_ntmpl pj (Hwf _ (nth_error_In _ _ Hj))) as Nj.
   destruct (goff_disjoint (@p_clu A V F) ps j k pj pk Hlt Hj Hk Pck) as (D1 & D2 & D3).
-  destruct (goff_disjoint (@p_tmpl A V F) ps j k pj pk Hlt Hj Hk Ptk) as (E1 & E2 & E3).
-  rewrite !coff_goff, !toff_goff. split; (split; [assumption|]; split; intros c Hc).
+  pose proof (toff_step ps j pj Hj) as G. pose proof (toff_mono ps Hnn (S j) k ltac:(lia)) as M.
+  rewrite !coff_goff. split; [split; [assumption|]; split; intros c Hc|].
   - specialize (Pcj c Hc). specialize (D2 c Hc). lia.
   - specialize (D3 c Hc). lia.
-  - specialize (Ptj c Hc). specialize (E2 c Hc). lia.
-  - specialize (E3 c Hc). lia.
+  - split; [lia|]. split; [lia|]. split; intros c Hc.
+    + specialize (Ptj c Hc). pose proof (zmaxl_ge _ _ Hc). lia.
+    + specialize (Ptk c Hc). lia.
 Qed.
 
 (* merged ids never collide across probes: equal merged id => same probe and same original id *)
@@ -645,10 +680,10 @@ Proof.
   destruct (tagged_from_in 0 ps s2 Hlen H2) as (p2 & N2 & C2 & T2 & _).
   rewrite Nat.sub_0_r in *.
   destruct (lt_eq_lt_dec (t_probe s1) (t_probe s2)) as [[L|E]|L].
-  - destruct (thm_disjoint ps Hwf _ _ _ _ L N1 N2) as ((D1 & D2 & D3) & (E1 & E2 & E3)).
+  - destruct (thm_disjoint ps Hwf _ _ _ _ L N1 N2) as ((D1 & D2 & D3) & (E1 & _ & E2 & E3)).
     specialize (D2 _ C1). specialize (D3 _ C2). specialize (E2 _ T1). specialize (E3 _ T2). split; intros; lia.
   - rewrite E. split; intros; split; try reflexivity; lia.
-  - destruct (thm_disjoint ps Hwf _ _ _ _ L N2 N1) as ((D1 & D2 & D3) & (E1 & E2 & E3)).
+  - destruct (thm_disjoint ps Hwf _ _ _ _ L N2 N1) as ((D1 & D2 & D3) & (E1 & _ & E2 & E3)).
     specialize (D2 _ C2). specialize (D3 _ C1). specialize (E2 _ T2). specialize (E3 _ T1). split; intros; lia.
 Qed.
 
